@@ -9,10 +9,43 @@ from reactivex.scheduler import HistoricalScheduler, VirtualTimeScheduler
 from reactivex.testing import TestScheduler
 
 
+class SelfDeadlock(BaseException):
+    """The only thread of the run tries to take a non-reentrant lock it already holds: it would block for ever."""
+
+
+class CheckedLock:
+    """Stand-in for the scheduler's threading.Lock in this single-threaded run: same protocol, but a second
+    acquire by the (only) thread is reported at once instead of blocking until the watchdog expires."""
+
+    def __init__(self):
+        self.held = False
+
+    def acquire(self, blocking=True, timeout=-1):
+        if self.held:
+            if not blocking or timeout >= 0:
+                return False
+            raise SelfDeadlock()
+        self.held = True
+        return True
+
+    def release(self):
+        if not self.held:
+            raise RuntimeError("release unlocked lock")
+        self.held = False
+
+    def locked(self):
+        return self.held
+
+    __enter__ = acquire
+
+    def __exit__(self, *exc):
+        self.release()
+
+
 class Prop:
     id = "C29"
     level = "exploration"
-    engine = "VT (with the wall-clock watchdog as part of the oracle)"
+    engine = "VT (with the CPU-time watchdog as part of the oracle)"
     quick_runs = 8000
     thorough_runs = 100000
     run_wall = 2.0
@@ -20,12 +53,12 @@ class Prop:
     chunk = 50
     rule = ("seeded finite schedules with 0-400 actions at the same due time (plus a few at other times), some of which reschedule "
             "themselves at the current time a bounded number of times, on VirtualTimeScheduler/TestScheduler (numeric clock) and "
-            "HistoricalScheduler (datetime clock), driven by start() or advance_to(); the run must return within the wall watchdog, "
+            "HistoricalScheduler (datetime clock), driven by start() or advance_to(); the run must return within the CPU-time watchdog, "
             "every action must have run exactly once per scheduling in (due, seq) order with a monotone clock, and a drained scheduler "
             "must run newly scheduled work when started again. Distinct = (clock kind, driver, burst size, reschedule count); non-trivial "
             "= more than 100 actions shared an instant.")
-    assumptions = ["a hang is detected by SIGALRM after 2 s of wall time per run (the only place where wall time is part of an oracle)"]
-    stubs = []
+    assumptions = ["a hang is detected by SIGPROF after 2 s of CPU time per run (process CPU time, so that a stalled machine is not a verdict)"]
+    stubs = ["the scheduler's private threading.Lock is replaced by a same-protocol lock that reports a second acquire by the only thread (self-deadlock) at once"]
 
     def generate(self, rng, tier):
         burst = rng.choice([0, 1, 50, 99, 100, 101, 102, 150, 203, 250, 400])
@@ -38,6 +71,18 @@ class Prop:
         kind = sc["clock"]
         hist = kind == "historical"
         s = {"vts": lambda: VirtualTimeScheduler(0.0), "test": TestScheduler, "historical": HistoricalScheduler}[kind]()
+        if type(getattr(s, "_lock", None)).__name__ == "lock":
+            s._lock = CheckedLock()  # seam: the scheduler's own mutex; a self-deadlock is then seen at once, not after the watchdog
+        try:
+            return self.drive(sc, s, kind, hist, out)
+        except SelfDeadlock:
+            out.digest = (kind, sc["driver"], "self-deadlock")
+            out.nontrivial = True
+            out.bad("did-not-finish", "clock=%s driver=%s burst=%d resched=%d: the running thread re-acquires the scheduler's non-reentrant lock, %s would never return" % (
+                kind, sc["driver"], sc["burst"], sc["resched"], sc["driver"]))
+            return out
+
+    def drive(self, sc, s, kind, hist, out):
 
         def now():
             c = s.clock
